@@ -486,6 +486,23 @@ seed("C11", "sweep-section-error-test-reversed", "ParseConfig goes on with defau
 seed("C11", "sweep-motion-config-from-output-dir", "the motion settings are read from another directory than the daemon's configuration", ["C11.H3"],
      (RCONF, "goconfig.New(c.ConfigDir)", "goconfig.New(c.OutputDir)"))
 
+
+# ---- second operator set of the sweep (duplicated / swapped statements, wrong variable of the same type)
+seed("C14", "sweep-frame-processed-twice", "the frame loop hands every frame to Process twice", ["C14.M2"],
+     (MAIN, "\t\terr = processor.Process(rawFrame)\n", "\t\terr = processor.Process(rawFrame)\n\t\terr = processor.Process(rawFrame)\n"))
+seed("C14", "sweep-header-line-buffered-twice", "every header line is buffered twice", ["C14.M4"],
+     (HDR, "\t\tbuf.WriteString(line)\n", "\t\tbuf.WriteString(line)\n\t\tbuf.WriteString(line)\n"))
+seed("C14", "sweep-toint-always-default", "toInt returns its default on every feasible path", ["C14.M5"],
+     (HDR, "\tout, ok := v.(int)\n\tif !ok {", "\tout, ok := v.(int)\n\tif true || !ok {"))
+seed("C18", "sweep-write-channel-closed-twice", "the write channel is closed twice at the end of a connection", ["C18.W4"],
+     (TW, "\t\t\tclose(writeFrames)\n", "\t\t\tclose(writeFrames)\n\t\t\tclose(writeFrames)\n"))
+seed("C16", "sweep-unlock-twice", "the handler releases the package mutex twice after publishing the processor", ["C16.R4"],
+     (MAIN, "\tprocessor = newProcessor\n\tmu.Unlock()\n", "\tprocessor = newProcessor\n\tmu.Unlock()\n\tmu.Unlock()\n"))
+seed("C17", "sweep-constant-mode-on-motion-recorder", "the motion recorder is switched into constant-recorder mode instead of the continuous one", ["C17.V5"],
+     (MAIN, "\t\tconstantRecorder.SetAsConstantRecorder()\n", "\t\tcptvRecorder.SetAsConstantRecorder()\n"))
+seed("C17", "sweep-constant-mode-set-twice", "constant-recorder mode is set twice (the folder nests)", ["C17.V5"],
+     (MAIN, "\t\tconstantRecorder.SetAsConstantRecorder()\n", "\t\tconstantRecorder.SetAsConstantRecorder()\n\t\tconstantRecorder.SetAsConstantRecorder()\n"))
+
 here = os.path.dirname(os.path.abspath(__file__))
 for pid, name, d in S:
     os.makedirs(os.path.join(here, pid), exist_ok=True)
